@@ -566,3 +566,28 @@ Definition stores_key (r : req) : option bytes :=
   match r with RPut k | RMpComplete k => Some k | _ => None end.
 
 Definition init_st (bk : bucket) : st := mkSt bk 0 [].
+
+(* ------------------------------------------------------------------ C15: purge_object *)
+
+(** the loop of purge_object, s3.rs:570-581, over the keys list_objects returned: a failed
+    delete is logged and remembered, the loop goes on *)
+Fixpoint purge_loop (fa : option N) (cprefix : bytes) (files : list bytes) (failed : bool) (s : st) : bool * st :=
+  match files with
+  | [] => (failed, s)
+  | f :: r => match delete_object fa cprefix f s with
+              | (Ok _, s1) => purge_loop fa cprefix r failed s1
+              | (_, s1) => purge_loop fa cprefix r true s1
+              end
+  end.
+
+(** S3OcflStore::purge_object, s3.rs:557-594, from the object root on (the lookup before it
+    reads only): everything the recursive listing [list_objects(object_root)] (s3.rs:570,
+    754-756: list_prefix without delimiter) returns is deleted *)
+Definition purge_object (fa : option N) (cprefix root : bytes) (s : st) : res unit * st :=
+  match list_all (bk_keys (st_b s)) cprefix root false with
+  | Ok (objs, _) =>
+      let (failed, s') := purge_loop fa cprefix objs false s in
+      (if failed then Err else Ok tt, s')
+  | Err => (Err, s)
+  | Panic => (Panic, s)
+  end.
